@@ -26,6 +26,61 @@ Record facts := {
 }.
 Record cfg := { kind : skind; fx : facts; has_auth : bool; class_svc : bool; nworkers : nat; batch : nat }.
 
+(* ---- control skeletons of the methods the model is written against, as emitted by tools/pygen/server.py
+        (proofs/ServerTie.v: the regenerated lists equal these) ---- *)
+Inductive sinstr :=
+| CIfClosedReturn | CSetClosed | CClearActive | CUnregisterGuarded | CListenerShutdownGuarded | CListenerClose
+| CForClientsShutdownClose | CClientsClear
+| AWhileActive | AAccept | ATimeoutContinue | AEintrContinue | AErrorRaiseEOF | AElseBreak | AIfInactiveReturn
+| ASetBlocking | AClientsAdd | ACallAcceptMethod
+| WTry | WIfAuthenticator | WAuthenticate | WAuthErrorReturn | WServeClient | WReraise | WFinallyShutdownGuarded | WFinallyDiscard
+| VPeerName | VTry | VConfig | VConnect | VHandle | VFinallyPass | HServeAll
+| SListen | SRegister | STryWhileActiveAccept | SExceptEOFPass | SExceptKeyboardInterrupt | SFinallyClose
+| OTryServeInline | OFinallyClose | TSpawnWorker
+| KFork | KChildRestoreSignals | KChildCloseListener | KChildClearClients | KChildServe | KChildExit | KParentCloseSock | KParentDiscard
+| FCBaseClose | FCRestoreSignal
+| PCBaseClose | PCJoinPoller | PCDropAll | PCPutNone | PCJoinWorkers
+| PATry | PAAuthenticateAndBuildInline | PAFileno | PARegisterFdToConn | PAAddInactive | PAClientsClear | PAExceptCloseSock | PAExceptDiscard
+| PBIfAuthenticator | PBAuthenticate | PBPeerName | PBConfig | PBConnect
+| DLookupDeleteGuarded | DCloseIfFound
+| RForEach | RUnregister | RIfErrorDrop | RElseEnqueue | RKeyErrorPass
+| LWhileActive | LPoll | LHandle | LExceptSleep
+| QForBatch | QPollServes | QIfNothingAddInactiveReturn | QEOFDropReturn | QOtherRequeueRaise | QBatchDoneRequeue
+| XWhileActive | XBlockingGet | XIfFdServe | XEmptyPass | XExceptSleep
+| IRegisterREH | IUnregisterGuarded.
+
+Definition close_prog := [CIfClosedReturn; CSetClosed; CClearActive; CUnregisterGuarded; CListenerShutdownGuarded; CListenerClose;
+                          CForClientsShutdownClose; CClientsClear].                                  (* server_close *)
+Definition accept_prog := [AWhileActive; AAccept; ATimeoutContinue; AEintrContinue; AErrorRaiseEOF; AElseBreak; AIfInactiveReturn;
+                           ASetBlocking; AClientsAdd; ACallAcceptMethod].                             (* EAccept: guard + accept *)
+Definition worker_prog := [WTry; WIfAuthenticator; WAuthenticate; WAuthErrorReturn; WServeClient; WReraise; WFinallyShutdownGuarded;
+                           WFinallyDiscard].                                                          (* work / finish_own *)
+Definition serve_client_prog := [VPeerName; VTry; VConfig; VConnect; VHandle; VFinallyPass].
+Definition handle_prog := [HServeAll].
+Definition start_prog := [SListen; SRegister; STryWhileActiveAccept; SExceptEOFPass; SExceptKeyboardInterrupt; SFinallyClose].
+Definition oneshot_prog := [OTryServeInline; OFinallyClose].                                         (* busy + finish_own closes *)
+Definition threaded_prog := [TSpawnWorker].
+Definition forking_prog := [KFork; KChildRestoreSignals; KChildCloseListener; KChildClearClients; KChildServe; KChildExit;
+                            KParentCloseSock; KParentDiscard].
+Definition forking_close_prog := [FCBaseClose; FCRestoreSignal].
+(* ThreadPoolServer.close: the two shapes known to the translator *)
+Definition pool_close_prog_of (drops_before_join : bool) (drops : bool) :=
+  if drops then (if drops_before_join then [PCBaseClose; PCDropAll; PCJoinPoller; PCPutNone; PCJoinWorkers]
+                 else [PCBaseClose; PCJoinPoller; PCDropAll; PCPutNone; PCJoinWorkers])
+  else [PCBaseClose; PCJoinPoller; PCPutNone; PCJoinWorkers].
+Definition pool_accept_prog_of (discards : bool) :=
+  [PATry; PAAuthenticateAndBuildInline; PAFileno; PARegisterFdToConn; PAAddInactive; PAClientsClear; PAExceptCloseSock]
+  ++ (if discards then [PAExceptDiscard] else []).
+Definition pool_build_prog := [PBIfAuthenticator; PBAuthenticate; PBPeerName; PBConfig; PBConnect].
+Definition drop_prog := [DLookupDeleteGuarded; DCloseIfFound].                                       (* drop *)
+Definition poll_result_prog := [RForEach; RUnregister; RIfErrorDrop; RElseEnqueue; RKeyErrorPass].   (* poll_step *)
+Definition poller_prog := [LWhileActive; LPoll; LHandle; LExceptSleep].
+Definition serve_requests_prog := [QForBatch; QPollServes; QIfNothingAddInactiveReturn; QEOFDropReturn; QOtherRequeueRaise;
+                                   QBatchDoneRequeue].                                                (* serve_step *)
+Definition pool_worker_prog := [XWhileActive; XBlockingGet; XIfFdServe; XEmptyPass; XExceptSleep].   (* take_step *)
+Definition add_inactive_prog := [IRegisterREH].
+Definition remove_inactive_prog := [IUnregisterGuarded].
+
 Inductive auth := AuthOk | AuthFail | AuthStall.   (* what the client does about authentication: pass, fail, never finish *)
 Inductive req := QRoot | QBump (o : oid) | QMake (o : oid) | QStr (o : oid) | QDel (o : oid) | QClose.
 Inductive reply := POid (o : oid) | PVal (n : nat) | POk | PErr.
@@ -133,7 +188,7 @@ Definition fresh_conn : conn :=
      own := {| cnt := 0; nmade := 0 |}; table := []; out := []; hist := [] |}.
 
 (* ---- what a reader makes of the bytes in a connection's buffer ---- *)
-Inductive nxt := NEmpty | NBlock | NBad (rest : list byte) | NReq (q : req) (rest : list byte).
+Inductive nxt := NEmpty | NBlock | NBad (rest : list byte) | NNop (rest : list byte) | NReq (q : req) (rest : list byte).
 
 Section Server.
 Variable decomp : list byte -> option (list byte).      (* zlib.decompress: None = zlib.error *)
@@ -151,6 +206,7 @@ Definition next_input (buf : list byte) : nxt :=
            let rest := skipn (N.to_nat (len + 1)) body in
            match (if Byte.eqb fl x00 then Some payload else decomp payload) with
            | None => NBad rest
+           | Some [] => NNop rest                       (* Connection.serve: `if not data: return False` *)
            | Some d => match decode d with Some q => NReq q rest | None => NBad rest end
            end
   | _ => NBlock
@@ -250,6 +306,7 @@ Definition work (c : cid) (s : st) : option st :=
                let s1 := serve_on s c q rest in
                if is_close q then Some (finish_own c s1) else Some s1
            | NBad rest => Some (finish_own c (set_conn s c (close_conn (k_inb k rest))))
+           | NNop rest => Some (set_conn s c (k_inb k rest))
            | NBlock | NEmpty => if gone k then Some (finish_own c (set_conn s c (close_conn k))) else None
            end
   | Authing =>
@@ -294,6 +351,7 @@ Definition serve_step (w : nat) (s : st) : option st :=
                     | _ => Some (enqueue (set_worker s1 w None) c)
                     end
            | NBad rest => Some (enqueue (set_worker (set_conn s c (k_inb k rest)) w None) c)
+           | NNop rest => Some (add_inactive (set_worker (set_conn s c (k_inb k rest)) w None) c)
            | NBlock => if gone k then Some (drop c (set_worker s w None)) else None
            | NEmpty => if gone k then Some (drop c (set_worker s w None)) else Some (add_inactive (set_worker s w None) c)
            end
